@@ -78,6 +78,7 @@ UnitsForVerdict(i, j, d, obs) ==
   ELSE \E listed \in {Flatten(obs.cats, 1)} : \E req \in {Required(Reg, d)} : \E opt \in {Optional(Reg, d)} :
        /\ IF EachOnce(listed) THEN TRUE ELSE Rej(i, j, "duplicate", {listed[a][2] : a \in {x \in DOMAIN listed : \E y \in DOMAIN listed : y # x /\ listed[y][2] = listed[x][2]}})
        /\ IF Names(req) \subseteq Names(ListedSet(listed)) THEN TRUE ELSE Rej(i, j, "missing", Names(req) \ Names(ListedSet(listed)))
+       /\ IF BaseListed(Reg, d, listed) THEN TRUE ELSE Rej(i, j, "missing", "the base unit itself")
        /\ IF Names(ListedSet(listed)) \subseteq Names(req \cup opt) THEN TRUE ELSE Rej(i, j, "foreign", Names(ListedSet(listed)) \ Names(req \cup opt))
        /\ IF \A p \in ListedSet(listed) : p[2] \in Names(req \cup opt) => p \in req \cup opt THEN TRUE
           ELSE Rej(i, j, "category", {p \in ListedSet(listed) : p[2] \in Names(req \cup opt) /\ p \notin req \cup opt})
